@@ -27,6 +27,8 @@ use std::ops::Deref;
 /// let domain = linear_space(0.0, 1.0, 3);
 /// assert_eq!(domain.values(), vec![0.0, 0.5, 1.0]);
 /// ```
+#[cfg_attr(kani, kani::requires(crate::verif_kani::domain::pre_linear(start, end, n)))]
+#[cfg_attr(kani, kani::ensures(|r: &DiscreteDomain| crate::verif_kani::domain::post_linear(start, end, n, &r.values)))]
 pub fn linear_space(start: f64, end: f64, n: usize) -> DiscreteDomain {
     let mut values = Vec::with_capacity(n);
     // A DiscreteDomain must be ascending: order the bounds, like `DiscreteDomain::linear` does
@@ -63,6 +65,8 @@ impl DiscreteDomain {
     /// * `n`: the total number of discrete, evenly spaced values in the domain
     ///
     /// returns: DiscreteDomain
+    #[cfg_attr(kani, kani::requires(crate::verif_kani::domain::pre_linear(start, end, n)))]
+    #[cfg_attr(kani, kani::ensures(|r: &DiscreteDomain| crate::verif_kani::domain::post_linear(start, end, n, &r.values)))]
     pub fn linear(start: f64, end: f64, n: usize) -> Self {
         let mut values = Vec::with_capacity(n);
         let (start, end) = (start.min(end), start.max(end));
